@@ -257,6 +257,9 @@ func (r *Replica) Reopen() error {
 }
 
 func (r *Replica) Close() {
+	if r.Exec != nil {
+		r.Exec.VerifStopStages()
+	}
 	if r.BF != nil {
 		_ = r.BF.Close()
 		r.BF = nil
@@ -357,6 +360,23 @@ type BlockResult struct {
 func (r *Replica) ExecBlock(txs []pb.Transaction, ts int64) *BlockResult {
 	h := r.L.GetChainMeta().Height + 1
 	return r.ExecBlockAt(h, txs, ts)
+}
+
+// ExecTwoPipelined executes two consecutive blocks the way a node does that receives them
+// back to back: the REAL pre-execute stage handles the second block before the execute
+// stage has run the first one. Returns what was persisted for both.
+func (r *Replica) ExecTwoPipelined(txs1 []pb.Transaction, ts1 int64, txs2 []pb.Transaction, ts2 int64) (*BlockResult, *BlockResult) {
+	h := r.L.GetChainMeta().Height + 1
+	txs1, txs2 = wireDecoded(txs1), wireDecoded(txs2)
+	mk := func(h uint64, txs []pb.Transaction, ts int64) *pb.CommitEvent {
+		return &pb.CommitEvent{Block: &pb.Block{BlockHeader: &pb.BlockHeader{Version: []byte("1.0.0"), Number: h, Timestamp: ts},
+			Transactions: &pb.Transactions{Transactions: txs}}, LocalList: make([]bool, len(txs))}
+	}
+	bw1 := r.Exec.VerifPreExecute(mk(h, txs1, ts1))
+	bw2 := r.Exec.VerifPreExecute(mk(h+1, txs2, ts2))
+	r.Exec.VerifExecuteWrapped(bw1)
+	r.Exec.VerifExecuteWrapped(bw2)
+	return r.ReadBlock(h, txs1), r.ReadBlock(h+1, txs2)
 }
 
 // wireDecoded returns the transactions the way a node gets them: decoded from the bytes
